@@ -249,7 +249,10 @@ class Algebra:
 
     @cached_property
     def matrix_basis(self):
-        return matrix_rep(self.p, self.q, self.r, signature=self.signature)
+        blades = None
+        if self.basis:
+            blades = [tuple(int(i, base=16) - self.start_index for i in blade[1:]) for blade in self.canon2bin]
+        return matrix_rep(self.p, self.q, self.r, signature=self.signature, blades=blades)
 
     @cached_property
     def frame(self) -> list:
